@@ -230,4 +230,6 @@ from props.C04 import rule_update_body  # noqa: E402  (aborted update must leave
 
 from props.C09 import rule_add_roa  # noqa: E402  (the documented prefix-length filter removes exactly what it documents)
 
-RULES = [rule_process_object, rule_processors, rule_tasks_returned, rule_ca_task, rule_commit, rule_update_body, rule_add_roa]
+from props.C08 import rule_policy  # noqa: E402  (of the unsafe-VRP policies only `reject` may remove a valid VRP)
+
+RULES = [rule_process_object, rule_processors, rule_tasks_returned, rule_ca_task, rule_commit, rule_update_body, rule_add_roa, rule_policy]
